@@ -45,9 +45,9 @@ PROFILES = {
 
 # property -> engine configuration
 SHAPE_PROPS = {
-    'C01': dict(profiles=['hostile', 'mixed'], title='well-formed configuration'),
+    'C01': dict(profiles=['hostile', 'mixed', 'serial', 'replica'], title='well-formed configuration'),
     'C02': dict(profiles=['requests', 'single', 'mixed'], title='prescribed configuration'),
-    'C03': dict(profiles=['lifecycle', 'mixed'], title='lifecycle callbacks'),
+    'C03': dict(profiles=['lifecycle', 'mixed', 'serial', 'replica'], title='lifecycle callbacks'),
     'C04': dict(profiles=['guards', 'guards-lo'], title='guards / veto / rounds'),
     'C05': dict(profiles=['order', 'order-lo'], title='delivery order'),
     'C06': dict(profiles=['plans'], title='plans'),
